@@ -265,7 +265,16 @@ func (m *c16Model) Register(h lntypes.Hash, s c16Spec) c16Exp {
 		return e
 	}
 	if bad := p.admission(s); len(bad) > 0 {
-		return c16Refuse(c16ClassOf("register:", bad), bad...)
+		e := c16Refuse(c16ClassOf("register:", bad), bad...)
+		// If the id is also a duplicate, refusing for that reason is as
+		// correct as naming one of the violated admission conditions
+		// (the order of the store's checks is not part of the
+		// property).
+		if _, dup := p.Atts[s.ID]; dup {
+			e.DupID = true
+		}
+
+		return e
 	}
 	if _, dup := p.Atts[s.ID]; dup {
 		// "AttemptID is the unique ID used for this attempt": a second
